@@ -343,11 +343,24 @@ CHECKS['C18'] = dict(
     assumptions=['references in refs/ref_hash.c written from RFC 1321 / MurmurHash3 / FNV-1 descriptions, validated at start-up against published vectors',
                  'gcc 12 ASan/UBSan; x86-64 little-endian output layout of the 128-bit Murmur result'])
 
+
+CHECKS['C19'] = dict(
+    title='string utilities exact, bounded writes', level='exploration',
+    jobs=lambda tier, seed: [Job('h_string', 'asan', args=(['--maxlen', '7', '--random', '40000'] if tier == 'thorough' else ['--maxlen', '5', '--random', '4000']))],
+    rule='evaluation = one call compared with an independently written reference definition: qstrtrim/_head/_tail over exactly {space,tab,CR,LF}; qstrreplace tn/tr/sn/sr (token mode: each listed character -> word; string mode: leftmost non-overlapping occurrences; '
+         'in-place buffers sized max(|src|,|result|)+1); qstrcpy/qstrncpy = first min(n,size-1) bytes + NUL for every size 1..n+2 and nbytes 0..n between guard bytes, overlapping source; qstrtok by field list and exact reconstruction (neutral on a final empty field), '
+         'qstrtokenizer = that list; qstrgets with big (exact lines) and small buffers (pieces concatenate to the CR/LF-free text); qstrunchar, qstrrev, qstrupper/lower (ASCII only), qstrdup_between, qmemdup. All strings up to length 5 (quick) / 7 (thorough) over the significant alphabets, '
+         'all (src,token,word) triples over {a,b,:}, random inputs to 2 KiB; exact-size heap blocks under ASan/UBSan. distinct = distinct (function group, input) pairs.',
+    require=['calls:qstrtrim', 'calls:qstrtrim_head', 'calls:qstrtrim_tail', 'calls:qstrunchar', 'calls:qstrrev', 'calls:qstrupper', 'calls:qstrlower', 'calls:qmemdup', 'calls:qstrcpy', 'calls:qstrncpy',
+             'calls:qstrgets', 'calls:qstrtok', 'calls:qstrtokenizer', 'calls:qstrreplace', 'calls:qstrdup_between', 'replace_triples', 'random_inputs'],
+    assumptions=['reference definitions in h_string.c; empty search tokens for qstrreplace and nbytes > strlen(src) for qstrncpy are outside the domain', 'gcc 12 ASan/UBSan'])
+
 # --------------------------------------------------------------------------- manifest texts
 NOT_APPLICABLE = {}
 DESIGN_REF = {}
 LEVEL_NOTE = {}
 TECHNIQUE = {
+    'C19': 'reference-definition oracles + guard bytes + ASan on exact-size buffers, exhaustive over all strings up to length 5/7 over significant alphabets',
     'C18': 'differential oracle against independent reference hashes over a complete (length, alignment, content class) grid + address/tail independence under ASan with exact-end buffers',
     'C16': 'round-trip + format-predicate oracles with an independent RFC 4648 reference, exhaustive over all byte strings up to length 2/3 + random',
     'C13': 'schedule injection (DFS/random over lock/allocator scheduling points) + Wing-Gong linearizability checking of recorded histories; stress with injected delays + conservation checkers; ThreadSanitizer',
@@ -367,6 +380,7 @@ TECHNIQUE = {
     'C04': 'reference-model floor oracle + continuation multiset audit; CPU watchdog',
 }
 LEVEL_TEXT = {
+    'C19': 'Each routine is compared with an independent reference definition on every string up to length 5 (7 thorough) over the significant bytes, every buffer size for the bounded copies and every (src, token, word) triple for replace, with destinations in exact-size blocks under ASan and guard bytes.',
     'C18': 'Every function is compared with an independent reference on the complete grid of lengths 1..600 x 8 alignments x 5 content classes (and large sizes, file ranges), at two placements with different trailing bytes, under ASan with buffers ending at the allocation end.',
     'C16': 'Every byte string up to length 2 (3 in the thorough tier, 16.8 M strings) and random strings up to 4 KiB are encoded, format-checked against the stated predicates / an independent RFC 4648 encoder, decoded and compared; query lists are assembled and parsed back.',
     'C13': 'Real pthreads run small client programs under enumerated or sampled schedules at lock/allocator granularity; each recorded history is checked for linearizability against a sequential model; truly concurrent stress histories are checked by per-key linearizability / conservation rules and by ThreadSanitizer.',
